@@ -125,6 +125,7 @@ func runC07TCP(c *Ctx, prop string) {
 			continue
 		}
 		r := rig.Rand(c.Seed, "C07tcp", procs, idx)
+		garbage := rig.LibGoroIDs() // what earlier, already reported, stuck rounds of this process left behind
 		holdOpen := r.Intn(2) == 0
 		cycles := 1 + r.Intn(3)
 		tracking := r.Intn(2) == 0
@@ -135,9 +136,9 @@ func runC07TCP(c *Ctx, prop string) {
 			c.R.Count("loopback_unavailable", 1)
 			return
 		}
-		causes := []string{"close", "cancel", "server-close", "server-reset"}
+		causes := []string{"close", "cancel", "deadline", "server-close", "server-reset", "bgclose"}
 		if !useCtx {
-			causes = []string{"close", "server-close", "server-reset"}
+			causes = []string{"close", "server-close", "server-reset", "bgclose"}
 		}
 		c.J.Log("CASE %s hold-open=%v cycles=%d tracking=%v ctx=%v", Case("tcp", idx), holdOpen, cycles, tracking, useCtx)
 		cfg := client.NewConfig("me", "ident", "Real Name")
@@ -152,6 +153,7 @@ func runC07TCP(c *Ctx, prop string) {
 		discCh := make(chan struct{}, 16)
 		conn.HandleFunc(client.DISCONNECTED, func(_ *client.Conn, l *client.Line) { atomic.AddInt64(&nDisc, 1); discCh <- struct{}{} })
 		conn.HandleFunc(client.REGISTER, func(_ *client.Conn, l *client.Line) { atomic.AddInt64(&nReg, 1) })
+		conn.HandleBG("BGCLOSE", client.HandlerFunc(func(cc *client.Conn, l *client.Line) { cc.Close() }))
 		got := make(chan string, 1024)
 		conn.HandleFunc("TCPL", func(_ *client.Conn, l *client.Line) {
 			select {
@@ -174,7 +176,12 @@ func runC07TCP(c *Ctx, prop string) {
 			connected := watched(func() {
 				if useCtx {
 					var ctx context.Context
-					ctx, cancel = context.WithCancel(context.Background())
+					if cause == "deadline" {
+						// this connection lives until its context's deadline (the next one is made without any)
+						ctx, cancel = context.WithTimeout(context.Background(), time.Second)
+					} else {
+						ctx, cancel = context.WithCancel(context.Background())
+					}
 					cerr = conn.ConnectContext(ctx)
 				} else {
 					cerr = conn.Connect()
@@ -243,6 +250,13 @@ func runC07TCP(c *Ctx, prop string) {
 			case "cancel":
 				cancel()
 				close(closeRet)
+			case "deadline":
+				close(closeRet) // nothing to do: the context's deadline ends the connection
+			case "bgclose":
+				// the application closes the connection from a background handler (the one kind of handler of a
+				// server line from which that is allowed)
+				sc.c.Write([]byte(":srv BGCLOSE now\r\n"))
+				close(closeRet)
 			case "server-close":
 				sc.c.Close()
 				close(closeRet)
@@ -281,7 +295,7 @@ func runC07TCP(c *Ctx, prop string) {
 			c.R.Eval(1)
 			c.R.Count("loopback_connections", int64(cycles))
 			// nothing of the library is left (the server's goroutines are the harness's own)
-			if leak, clean := rig.WaitNoLib(WaitShort, 400); !clean {
+			if leak, clean := rig.WaitNoLibExcept(garbage, WaitShort, 400); !clean {
 				var desc []string
 				for _, g := range leak {
 					desc = append(desc, g.LibRole())
